@@ -105,9 +105,11 @@ def rows_of(c):
                 C.cq_list([C.cq_str(x) for x in o.get("pushed") or []])))
         return out
     if is_dyn(c):
+        # one resource per backend (several kinds may share one Service): one row per backend
         return ["dyn_case %d fx %s false cl_%d %s %s %s" % (
-            c["id"] * 100, C.cq_bool(c["plus"]), c["id"], C.cq_str(NS), cq_backend(c["backends"][0]),
-            C.cq_list([C.cq_str(x) for x in c["obs"].get("after") or []]))]
+            c["id"] * 100 + i, C.cq_bool(c["plus"]), c["id"], C.cq_str(NS), cq_backend(b),
+            C.cq_list([C.cq_str(x) for x in per.get("after") or []]))
+            for i, (b, per) in enumerate(zip(c["backends"], c["obs"]["per"]))]
     for i, (b, o) in enumerate(zip(c["backends"], c["obs"])):
         out.append("backend_case %d fx %s %s cl_%d %s %s %s %s %s %s %s %s" % (
             c["id"] * 100 + i, C.cq_bool(c["plus"]), C.cq_bool(c["resolver"]), c["id"], C.cq_str(NS), cq_backend(b),
@@ -123,7 +125,7 @@ def usable(c):
         return isinstance(o, dict) and not o.get("error") and not o.get("panic") and len(o.get("items") or []) == len(c["res"]["items"])
     if is_dyn(c):
         o = c.get("obs")
-        return isinstance(o, dict) and not o.get("error") and not o.get("panic")
+        return isinstance(o, dict) and not o.get("error") and not o.get("panic") and len(o.get("per") or []) == len(c["backends"])
     return isinstance(c.get("obs"), list)
 
 
@@ -162,7 +164,7 @@ def judge(run, cases, res):
         rid, agree, spec, nontrivial, tag, kind = row
         c = byid[rid // 100]
         if is_dyn(c):
-            judge_dyn(run, c, agree, spec, nontrivial, tag, kind)
+            judge_dyn(run, c, rid % 100, agree, spec, nontrivial, tag, kind)
             continue
         if is_res(c):
             judge_res(run, c, rid % 100, agree, spec, nontrivial, tag, kind)
@@ -227,36 +229,40 @@ def judge_res(run, c, i, agree, spec, nontrivial, tag, kind):
                     theorem="correspondence Endpoints.Model (resource level) ~ createXEx + Configurator", found_input=False)
 
 
-def judge_dyn(run, c, agree, spec, nontrivial, tag, kind):
-    b, o, op = c["backends"][0], c["obs"], c["dyn"]["op"]
-    run.count_case({"fam": "dyn", "plus": c["plus"], "svcs": c["svcs"], "slices": c["slices"], "pods": c["pods"], "backend": b, "dyn": c["dyn"]},
-                   bool(nontrivial) or o["before"] != o["after"])
+def judge_dyn(run, c, i, agree, spec, nontrivial, tag, kind):
+    b, o, op = c["backends"][i], c["obs"], c["dyn"]["op"]
+    per = o["per"][i]
+    kinds = "+".join(x["kind"] for x in c["backends"])
+    shared = len(c["backends"]) > 1
+    run.count_case({"fam": "dyn", "plus": c["plus"], "svcs": c["svcs"], "slices": c["slices"], "pods": c["pods"], "backends": c["backends"],
+                    "i": i, "dyn": c["dyn"]}, bool(nontrivial) or per["before"] != per["after"])
     run.cov["traces_validated_against_impl"] += 1
     bt = run.cov.setdefault("by_branch", {})
     bt[str(tag)] = bt.get(str(tag), 0) + 1
     dy = run.cov.setdefault("dyn_by_op", {})
-    key = "%s:%s" % (op, "changed" if o["before"] != o["after"] else "unchanged")
+    key = "%s:%s:%s" % (op, "shared" if shared else "single", "changed" if per["before"] != per["after"] else "unchanged")
     dy[key] = dy.get(key, 0) + 1
-    if not o.get("has_file"):
+    where = "dyn case %d backend %d of [%s] (%s -> %s:%s, change `%s`, events %s, %d task(s) queued, %d synced)" % (
+        c["id"], i, kinds, b["kind"], b["svc"], b["port_name"] or b["port_num"], op, o["events"], o["queued"], o["synced"])
+    if not per.get("has_file"):
         run.failing({"kind": "backend-disappeared", "backend": b["kind"], "fam": "dyn"}, [c],
-                    "dyn case %d: the configuration file of the %s is gone after the events %s" % (c["id"], b["kind"], o["events"]),
-                    theorem="C14_empty_is_error_backend")
+                    "%s: the upstream block of the %s is gone after the events" % (where, b["kind"]), theorem="C14_empty_is_error_backend")
     elif not spec:
         if kind in (1, 2, 4):          # a known defect of the resolution itself, on the new cluster
             sig = {"kind": FAILKIND[kind]}
         else:
-            stale = o["before"] == o["after"]
-            sig = {"kind": "stale-after-event" if stale else "wrong-after-event", "op": op,
-                   "enqueued": o["queued"] > 0}
-        run.failing(sig, [c], "dyn case %d (%s -> %s:%s, change `%s`, events %s, %d task(s) queued, %d synced): NGINX is left with %s (before the events: %s), "
-                    "which is not the resolution on the cluster after the events (%s)"
-                    % (c["id"], b["kind"], b["svc"], b["port_name"] or b["port_num"], op, o["events"], o["queued"], o["synced"],
-                       json.dumps(o["after"])[:200], json.dumps(o["before"])[:200], FAILKIND.get(kind, "other")),
+            stale = per["before"] == per["after"]
+            sig = {"kind": "stale-after-event" if stale else "wrong-after-event", "op": op, "enqueued": o["queued"] > 0}
+            if shared:
+                # other resources of the case (other kinds, same Service) did follow the change?
+                sig["shared_service"] = True
+        run.failing(sig, [c], "%s: NGINX is left with %s (before the events: %s), which is not the resolution on the cluster after the events (%s)"
+                    % (where, json.dumps(per["after"])[:200], json.dumps(per["before"])[:200], FAILKIND.get(kind, "other")),
                     theorem="Endpoints.Cases.dyn_case / C14_exact on the cluster after the events")
     elif not agree:
         run.failing({"kind": "correspondence", "backend": b["kind"], "fam": "dyn"}, [c],
-                    "dyn case %d: the configured servers %s differ from the model's rendering on the new cluster although the specification holds"
-                    % (c["id"], json.dumps(o["after"])[:300]),
+                    "%s: the configured servers %s differ from the model's rendering on the new cluster although the specification holds"
+                    % (where, json.dumps(per["after"])[:300]),
                     theorem="correspondence Endpoints.Model ~ event handlers + sync", found_input=False)
 
 
@@ -314,7 +320,7 @@ def check(run):
                        "of the Service + slice ports rewritten in place; one slice port number; readiness; addresses; the service-name label; slice "
                        "deleted / added; service port number) and the change is delivered as watch events to the REAL createServiceHandlers / "
                        "createEndpointSliceHandlers, the REAL work queue is drained with the REAL lbc.sync, and the `server` lines of the file written last "
-                       "must be the resolution on the cluster AFTER the events (dyn_by_op counts how many changes altered the servers).")
+                       "of EVERY resource's upstream must be the resolution on the cluster AFTER the events (dyn_by_op counts, per change and shared/single, how many altered the servers).")
     run.cov["trusted_base"] = TRUSTED
     run.assumptions += ["the correspondence follows the code variant of the tree under test (repairs F40 / F41 / F42 present or not, read off the corpus "
                         "witnesses: model_variant); the specification S does not depend on the variant",
@@ -347,8 +353,9 @@ def replay(run, path):
                 r[0] // 100, r[0] % 100, json.dumps(c["obs"]["items"][r[0] % 100])[:600], r[1], r[2], FAILKIND.get(r[5], "none")))
             continue
         if is_dyn(c):
-            print("replay dyn case %d: impl obs=%s  model-agrees=%d spec=%d failure-kind=%s" % (
-                r[0] // 100, json.dumps(c["obs"])[:600], r[1], r[2], FAILKIND.get(r[5], "none")))
+            print("replay dyn case %d backend %d (%s): events=%s queued=%d impl obs=%s  model-agrees=%d spec=%d failure-kind=%s" % (
+                r[0] // 100, r[0] % 100, c["backends"][r[0] % 100]["kind"], c["obs"]["events"], c["obs"]["queued"],
+                json.dumps(c["obs"]["per"][r[0] % 100])[:400], r[1], r[2], FAILKIND.get(r[5], "none")))
             continue
         print("replay case %d backend %d: impl obs=%s  model-agrees=%d spec=%d failure-kind=%s" % (
             r[0] // 100, r[0] % 100, json.dumps(c["obs"][r[0] % 100])[:500], r[1], r[2], FAILKIND.get(r[5], "none")))
